@@ -368,12 +368,15 @@ def call_edges(ctx, f):
             g = prog.resolve_call(f, c)
             if g is not None:
                 out.append((n, g, "call"))
-            for a in list(c.args) + [k.value for k in c.keywords]:
+            cn_ = call_name(c)
+            for pos, a in [(i, a) for i, a in enumerate(c.args)] + [(k.arg, k.value) for k in c.keywords]:
                 if isinstance(a, (ast.Attribute, ast.Name, ast.Lambda)) or (
                         isinstance(a, ast.Call) and unparse(a.func).split(".")[-1] == "partial"):
                     h = prog.resolve_callable(f, a)
                     if h is not None:
-                        out.append((n, h, "reg"))
+                        # a handler on the failure side runs when the chain is cancelled, whatever held when it was registered
+                        failure_side = cn_ in ("addErrback", "addBoth") and pos == 0 or (cn_ == "addCallbacks" and pos in (1, "errback"))
+                        out.append((n, h, "reg-eb" if failure_side else "reg"))
     return out
 
 
@@ -399,7 +402,9 @@ def guarded_reach(ctx, starts, is_target_call, guard_atoms, max_funcs=200):
                 if is_target_call(f, c):
                     return path + [(f.qname, n.lineno, n.text(70))]
         for n, g, kind in call_edges(ctx, f):
-            if any(a in facts[n.id] for a in guard_atoms):
+            # a guard at the site of a direct call (or of a success-side registration) still holds when the callee runs;
+            # a failure-side handler runs later - when the chain is cancelled - so the guard at its registration says nothing
+            if kind != "reg-eb" and any(a in facts[n.id] for a in guard_atoms):
                 continue
             stack.append((g, path + [(f.qname, n.lineno, "%s %s" % (kind, g.name))]))
     return None
